@@ -166,6 +166,10 @@ def ev_x(e, env):
         return True
     if isinstance(e, ast.IfExp):
         return ev_x(e.body, env) if ev_x(e.test, env) else ev_x(e.orelse, env)
+    if isinstance(e, ast.Dict) and all(k is not None for k in e.keys):
+        return {ev_x(k, env): ev_x(v, env) for k, v in zip(e.keys, e.values)}
+    if isinstance(e, ast.Set):
+        return {ev_x(x, env) for x in e.elts}
     if isinstance(e, ast.Subscript):
         v = ev_x(e.value, env)
         if isinstance(e.slice, ast.Slice):
@@ -188,6 +192,13 @@ def ev_x(e, env):
                     rec(gens[1:], env2)
         rec(e.generators, env)
         return set(out) if isinstance(e, ast.SetComp) else out
+    if isinstance(e, ast.Attribute):
+        v = ev_x(e.value, env)
+        if isinstance(v, dict) and e.attr in v:
+            return v[e.attr]
+        raise Unknown(f'attribute {e.attr}')
+    if isinstance(e, ast.Call) and isinstance(e.func, ast.Name) and callable(env.get(e.func.id)):
+        return env[e.func.id](*[ev_x(a, env) for a in e.args])
     if isinstance(e, ast.Call):
         if isinstance(e.func, ast.Attribute) and e.func.attr in ('index', 'isdisjoint', 'issubset', 'intersection', 'count'):
             recv = ev_x(e.func.value, env)
@@ -233,6 +244,26 @@ def run_tail(stmts, env):
                 raise Ret(ev_x(s_.value, env) if s_.value is not None else None)
             if isinstance(s_, ast.Assign) and len(s_.targets) == 1 and isinstance(s_.targets[0], ast.Name):
                 env[s_.targets[0].id] = ev_x(s_.value, env)
+            elif isinstance(s_, ast.Assign) and len(s_.targets) == 1 and isinstance(s_.targets[0], ast.Tuple) \
+                    and all(isinstance(t, ast.Name) for t in s_.targets[0].elts):
+                vals = list(ev_x(s_.value, env))
+                for t, v in zip(s_.targets[0].elts, vals):
+                    env[t.id] = v
+            elif isinstance(s_, ast.Assign) and len(s_.targets) == 1 and isinstance(s_.targets[0], ast.Subscript) \
+                    and isinstance(s_.targets[0].value, ast.Name):
+                env.setdefault(s_.targets[0].value.id, {})[ev_x(s_.targets[0].slice, env)] = ev_x(s_.value, env)
+            elif isinstance(s_, ast.AugAssign) and isinstance(s_.target, ast.Name):
+                cur, val = env[s_.target.id], ev_x(s_.value, env)
+                if isinstance(s_.op, ast.Add):
+                    env[s_.target.id] = cur + val
+                elif isinstance(s_.op, ast.Sub):
+                    env[s_.target.id] = cur - val
+                else:
+                    raise Unknown('augmented assignment')
+            elif isinstance(s_, ast.For):
+                for item in ev_x(s_.iter, env):
+                    bind(s_.target, item, env)
+                    run(s_.body)
             elif isinstance(s_, ast.If):
                 run(s_.body if ev_x(s_.test, env) else s_.orelse)
             elif isinstance(s_, (ast.Expr, ast.Pass)):
@@ -243,4 +274,4 @@ def run_tail(stmts, env):
         run(stmts)
     except Ret as r:
         return r.args[0]
-    return None
+    return env
